@@ -63,8 +63,10 @@ def run_case(case):
     bench = Bench(top, cap=hostile + (nw + nr) * nm * 80 + 1000)
     mags, sags, mmons, smons = [], [], [], []
 
+    homes = [rng.randrange(ns) for _ in range(nm)]
+
     def addr_for(mi, i):
-        o, k = regs[rng.randrange(ns)]
+        o, k = regs[homes[mi] if cls == "E" else rng.randrange(ns)]
         return o * 4 + (((mi << 6) | (i & 63)) * 16)
     for mi, m in enumerate(masters):
         p = class_params(rng, cls)
